@@ -15,27 +15,7 @@ set_option linter.unusedVariables false
 
 namespace Rig.C10
 
-/-- bit of a source in C04's `sources` word: a link/route `l` is bit `l`, `None` is bit 24 -/
-def srcBit : Option Nat → Nat
-  | none => 24
-  | some l => l
-
-def srcWord (ss : List (Option Nat)) : Nat := routeWord (ss.map srcBit)
-
-/-- C10 entry -> C04 entry -/
-def toC04 (e : Entry) : Rig.C04.Entry :=
-  { route := routeWord e.route, key := BitVec.ofNat 32 e.key, mask := BitVec.ofNat 32 e.mask,
-    sources := srcWord e.sources }
-
-/-- the set bits of `w` below `n`, ascending -/
-def bitsOf (w n : Nat) : List Nat := (List.range n).filter (fun b => w.testBit b)
-
-def srcOfBit (b : Nat) : Option Nat := if b = 24 then none else some b
-
-/-- C04 entry -> C10 entry -/
-def ofC04 (e : Rig.C04.Entry) : Entry :=
-  { route := bitsOf e.route 24, key := e.key.toNat, mask := e.mask.toNat,
-    sources := (bitsOf e.sources 25).map srcOfBit }
+/-! the conversions `toC04` / `ofC04` are defined in Model/C10.lean (the driver evaluates them) -/
 
 /-- sources as the tree conversion produces them: `None` or one of the 24 routes -/
 def SrcOk (s : Option Nat) : Prop := ∀ l, s = some l → l < 24
